@@ -728,6 +728,7 @@ def missingCheck (o : Orc) : Orc × Option String :=
               | some vt => (firstOp vt true 0).bind fun vo => firstOp t false vo
           let srDrop := o.srOps.any (fun (t, sop) => t = trk && sop ≤ fpop && prevOp ≤ sop &&
             (match originOpOf trk with | some oo => oo ≤ sop | none => false))
+          -- (diagnosis of a REPAIRED defect, see the end of the chain)
           -- an OLD sample closed the file: a sample (of any track) that the builder returned while a file was
           -- open and that, by the sender reports both tracks had when the file was created, was captured 2^16
           -- ticks of its clock or more (1.37 s of audio, 0.73 s of video) before the keyframe the file begins
@@ -855,17 +856,19 @@ def missingCheck (o : Orc) : Orc × Option String :=
             (defer o s!"C20: [file-switch] frame {f.fid} of track {trk} ({cn}) is missing from the recording although every packet reached the recorder: it reached the recorder after file {k} had been started (keyframe with new dimensions) and {why}: it is before the time origin of the new file, the file it belongs to is closed, and the sample is dropped as late", none)
           else if srDrop then
             (defer o s!"C20: [SR-shift] frame {f.fid} of track {trk} ({cn}) is missing from the recording although every packet reached the recorder: a sender report moved the origin of the track past the frame's timestamp and the sample was dropped as late", none)
-          else if wrapClosed.isSome then
-            let (t', ts', a, e) := wrapClosed.getD (0, 0, 0, 0)
-            (defer o s!"C20: [wrap-close] frame {f.fid} of track {trk} ({cn}) is missing from the recording although every packet reached the recorder: a sample of track {t'} (timestamp {ts'}), returned by the sample builder in op {a} while a file was open, was captured {-e} ms before the keyframe the file begins with, by the sender reports: 2^16 ticks or more before the track's origin; the recorder takes a sample that old for a timestamp that has gone round 2^31, closes the file, and every track waits for the next keyframe; nothing has been written since", none)
           else if srClosed.isSome then
             let (t', a) := srClosed.getD (0, 0)
-            (defer o s!"C20: [SR-shift] frame {f.fid} of track {trk} ({cn}) is missing from the recording although every packet reached the recorder: a sender report moved the origin of track {t'} past the timestamps of its samples; nothing at all has been written since its next sample was returned (op {a}): moved by 2^16 ticks or more, the recorder takes the sample for a timestamp wrap and closes the file, and every track waits for the next keyframe", none)
+            (defer o s!"C20: [SR-shift] frame {f.fid} of track {trk} ({cn}) is missing from the recording although every packet reached the recorder: a sender report moved the origin of track {t'} past the timestamps of its samples; nothing at all has been written since its next sample was returned (op {a}): moved by 2^30 ticks or more (2^16 before the repair of the late/wrap threshold), the recorder takes the sample for a timestamp wrap and closes the file, and every track waits for the next keyframe", none)
           -- (P22 was repaired in ce4d658: looked for last, when no known cause explains the loss)
           else if !recPad.isEmpty then
             (defer o s!"C20: [P22] frame {f.fid} of track {trk} ({cn}) is missing from the recording although every packet reached the recorder or was recovered from the cache: its packet(s) {recPad.map (·.seq)} carry RTP padding and were recovered from the cache; fetch unmarshals the whole 1504-byte buffer, whose last byte is 0, so the packet is rejected (invalid padding length)", none)
           else if kfRecovered && cn = "video/h264" then
             (defer o s!"C20: [P22] frame {f.fid} of track {trk} ({cn}) is missing from the recording although every packet was delivered or recovered: the first packet (STAP-A with the SPS) of its keyframe {(kfStart.map (·.fid)).getD 0} was recovered from the cache and, unmarshalled from the whole 1504-byte buffer, is no longer recognised as a keyframe start", none)
+          -- (`old-sample-taken-for-wrap` was repaired — the late/wrap threshold is 2^30 ticks now —: looked for
+          -- last, to name a regression; never a known finding)
+          else if wrapClosed.isSome then
+            let (t', ts', a, e) := wrapClosed.getD (0, 0, 0, 0)
+            (defer o s!"C20: [wrap-close] frame {f.fid} of track {trk} ({cn}) is missing from the recording although every packet reached the recorder: a sample of track {t'} (timestamp {ts'}), returned by the sample builder in op {a} while a file was open, was captured {-e} ms before the keyframe the file begins with, by the sender reports: 2^16 ticks or more before the track's origin, and nothing has been written since; writeBuffered must drop a sample up to 2^30 ticks before the origin as late — the code before that repair took it for a timestamp that has gone round 2^31, closed the file, and every track waited for the next keyframe", none)
           else
             (o, some s!"C20: frame {f.fid} of track {trk} ({cn}, timestamp {f.ts}, {f.n} packets) is missing from the recording although it and every packet before it reached the recorder or was recovered from the cache (first frame owed: {s})"))
     (o, none)
